@@ -517,6 +517,16 @@ class C02(Base):
                 pool.append(lay[rng.randrange(len(lay))][0])
         for c in dedent_matrix(2 if quick else 3):
             yield c
+        # identifier CHARACTERS (every identifier kind with the boundary characters of a-z A-Z 0-9 _ -) and pattern lines
+        # indented by 255 ... 65540 columns; both are well-formed: the parser must give the grammar's tree
+        for ch in "AZaz09_-MmQ5":
+            for ident in ("x" + ch + "y", "x" + ch):
+                yield "spec " + hx("%s = v\n-%s = t\nm = { %s } { -%s } { $%s } { m.%s } { $n ->\n   *[%s] k\n } { FN(%s: 1) }\n    .%s = a\n"
+                                   % (ident, ident, ident, ident, ident, ident, ident, ident, ident))
+                yield "spec " + hx("m = { F%sN() } { F%sN($x, k: 1) }\n" % (ch.upper(), ch.upper()))
+        for n in (255, 256, 257, 65535, 65536, 65540):
+            pad = " " * n
+            yield "spec " + hx("k =\n%sa\n%s  b\n%s{ $x } c\n" % (pad, pad, pad))
         n3 = 15000 if quick else 120000
         mpool = pool + chunks
         for _ in range(n3):
@@ -676,8 +686,8 @@ class C02(Base):
                 return keep(["spec " + hx("\n".join(c)) for c in cands])
             src = "\n".join(core.ddmin(lines, fl))
         chars = list(src)
-        if len(chars) < 2:
-            return "spec " + hx(src)
+        if len(chars) < 2 or len(chars) > 3000:
+            return "spec " + hx(src)          # (very long lines are not shrunk character by character)
 
         def f(cands):
             return keep(["spec " + hx("".join(c)) for c in cands])
